@@ -134,6 +134,19 @@ def pool_full(**kw) -> Pool:
     )
 
 
+def pool_draws(**kw) -> Pool:
+    """integrands for the Monte-Carlo operator: two draw variables of different (user-defined) types whose sorted
+    order (alpha < zeta) differs from their order of appearance; 3 observations x 3 draws"""
+    return Pool(
+        betas=BETAS[:2], vars=VARS[:2],
+        leaves=[('num', '2'), ('beta', 1), ('var', 1), ('draw', 1), ('draw', 2)],
+        unops=UNOPS, binops=BINOPS, naryops=['bioMultSum', 'Elem', 'ConditionalSum'],
+        draws=[('zeta', 'TZ', [['1', '2', '1/2'], ['3', '1', '2'], ['1/2', '1/2', '3']]),
+               ('alpha', 'TA', [['2', '1', '1'], ['1/2', '3', '1'], ['2', '2', '1/2']])],
+        ndraws=3, **kw,
+    )
+
+
 def pool_mid(**kw) -> Pool:
     return Pool(
         betas=BETAS, vars=VARS,
@@ -144,11 +157,23 @@ def pool_mid(**kw) -> Pool:
 
 # ------------------------------------------------------------------------------ real objects
 def database(pool: Pool, name: str = 'vb'):
+    import numpy as np
     import pandas as pd
     import biogeme.database as db
 
     df = pd.DataFrame({n: [float(q(v)) for v in vals] for n, vals in pool.vars})
-    return db.Database(name, df)
+    d = db.Database(name, df)
+    if pool.draws:
+        def gen(vals):
+            table = np.array([[float(q(v)) for v in obs] for obs in vals])
+
+            def g(sample_size, number_of_draws):
+                return table[:sample_size, :number_of_draws].copy()
+
+            return g
+
+        d.set_random_number_generators({typ: (gen(vals), f'deterministic series of {name_}') for name_, typ, vals in pool.draws})
+    return d
 
 
 def beta_dict(pool: Pool, point: int, only_free: bool = True) -> dict:
@@ -172,7 +197,7 @@ class Builder:
     def node(self, i: int) -> dict:
         if i <= self.nl:
             l = self.pool.leaves[i - 1]
-            return dict(op={'num': 'Numeric', 'beta': 'Beta', 'var': 'Variable'}[l[0]], leaf=l)
+            return dict(op={'num': 'Numeric', 'beta': 'Beta', 'var': 'Variable', 'draw': 'bioDraws'}[l[0]], leaf=l)
         return self.ops[i - self.nl - 1]
 
     def build(self, i: int):
@@ -199,6 +224,9 @@ class Builder:
             return ex.Beta(name, float(q(vals[self.init_point])), None, None, 0 if free else 1)
         if op == 'Variable':
             return ex.Variable(self.pool.vars[n['leaf'][1] - 1][0])
+        if op == 'bioDraws':
+            name, typ, _ = self.pool.draws[n['leaf'][1] - 1]
+            return ex.bioDraws(name, typ)
         kids = n['kids']
         k = [self.build(j) for j in kids]
         if op in ('Plus', 'Minus', 'Times', 'Divide', 'Power', 'bioMin', 'bioMax', 'And', 'Or'):
